@@ -10,7 +10,10 @@ package main
 import (
 	"encoding/hex"
 	"fmt"
+	"os"
+	"path/filepath"
 	"strings"
+	"time"
 
 	"github.com/trzsz/trzsz-go/trzsz"
 )
@@ -159,7 +162,7 @@ func genScanners(c *ctx) {
 		for _, fn := range detFns {
 			step := 1
 			if len(t) > 300 {
-				step = len(t) / 40
+				step = len(t) / c.pick(8, 40)
 			}
 			for k := 0; k <= len(t); k += step {
 				sc.run(fn, 0, detBound(k), t[:k])
@@ -247,7 +250,9 @@ func genScanners(c *ctx) {
 		sc.run("readline-windows", 0, 2*len(s)+8, s)
 		c12Cuts2(s, func(a, b []byte) { sc.run("readline-windows", 0, 2*len(s)+8, a, b) })
 		for mode := 0; mode < 8; mode++ {
-			sc.run("recv-line", mode, 2*len(s)+8, s)
+			if c.thorough() || len(s) <= 2 || mode%3 == len(s)%3 {
+				sc.run("recv-line", mode, 2*len(s)+8, s)
+			}
 		}
 	})
 	for i := 0; i < c.pick(2000, 40000); i++ {
@@ -291,6 +296,155 @@ func genScanners(c *ctx) {
 		}
 	}
 	c12AllStrings([]byte(`{}[]":,a1-path_nm`), c.pick(3, 4), func(s []byte) { sc.run("source-file", 0, len(s)+8, s) })
+
+	// ---- the relay's handshake line decoders, and the line splitter shared with recvCheck ----
+	splitLine := func(line []byte) {
+		for _, b := range line {
+			if b == '\n' || b == 3 {
+				return
+			}
+		}
+		for which, f := range []func([]byte) (string, string, string){trzsz.VerifRelayDecode, trzsz.VerifRecvCheckSplit} {
+			if which == 1 && len(line) == 5 && !c.thorough() {
+				continue // a transfer object per call: the longest exhaustive stratum only through the relay's decoder
+			}
+			name := []string{"relay-decode-split", "recvcheck-split"}[which]
+			sc.calls[name]++
+			class, typ, p := f(line)
+			if p != "" {
+				c.violate(fmt.Sprintf("scanner-panic:%s:%s", name, c12HexChunks([][]byte{line})), "a line splitter panicked on a handshake line: "+p,
+					fmt.Sprintf("fn=%s line(hex)=%s line=%q :: %s", name, c12HexChunks([][]byte{line}), string(line), p))
+				continue
+			}
+			res := "rej"
+			switch class {
+			case "colon":
+			case "type":
+				res = "typ:" + hx([]byte(typ))
+			default:
+				res = "?" + class
+			}
+			if len(line) <= 4096 { // the extracted model works on lists: megabyte lines only through the direct oracle
+				c.emit(true, "c12_line_split", res, hx(line))
+			}
+		}
+	}
+	hostileLines := []string{"", ":", ":wq", "::", "#", "#:", "#:x", "#ACT", "#ACT:", "ACT:x", "x:#ACT:y", "#ACT:!!!", "#ACT:QUJD", ":#ACT:" + c12B64z([]byte("{}")),
+		"#ACT:" + c12B64z([]byte("{}")), "#ACT:" + c12B64z([]byte(`{"protocol":"x","newline":7,"binary":"no"}`)), "#ACT:" + c12B64z([]byte("[]")), "#ACT:" + c12B64z([]byte("null")),
+		"#ACT:" + c12B64z([]byte(`{"newline":""}`)), "#CFG:" + c12B64z([]byte(`{"bufsize":-1,"timeout":"x","escape_chars":[["a"]],"tmux_pane_width":99999999999}`)),
+		"#CFG:" + c12B64z([]byte(`{"escape_chars":[[1,2]],"compress":"yes"}`)), "#FAIL:" + c12B64z([]byte("boom")), "#fail:%%%", "#EXIT:", strings.Repeat(":", 1000),
+		strings.Repeat("A", 1<<20), "#ACT:" + strings.Repeat("A", 1<<20), "\x1b[200~:wq", "#ACT:" + c12B64z([]byte(strings.Repeat("[", 20000))), "\xff\xfe:\x00"}
+	for _, l := range hostileLines {
+		splitLine([]byte(l))
+		sc.run("relay-decode", 0, 1<<30, []byte(l))
+		for mode := 0; mode < 4; mode++ {
+			for ni, nlv := range []string{"\n", "!\n", "\r\n"} {
+				if !c.thorough() && len(l) > 100000 && (mode != ni || mode > 1) {
+					continue // megabyte lines: plain reader with "\n", Windows reader with "!\n"
+				}
+				full := []byte(l + nlv)
+				sc.run("relay-recv-act", mode, 4*len(full)+64, full)
+				sc.run("relay-recv-cfg", mode, 4*len(full)+64, full)
+				if len(full) < 200 && (mode == 0 || c.thorough()) {
+					c12Cuts2(full, func(a, b []byte) {
+						sc.run("relay-recv-act", mode, 4*len(full)+64, a, b)
+						sc.run("relay-recv-cfg", mode, 4*len(full)+64, a, b)
+					})
+				}
+			}
+		}
+	}
+	c12AllStrings([]byte("#:ACT=x"), c.pick(5, 6), func(s []byte) {
+		splitLine(s)
+		sc.run("relay-decode", 0, 1<<30, s)
+		if len(s) <= 3 || c.thorough() && len(s) <= 4 {
+			sc.run("relay-recv-act", len(s)%4, 64, append(append([]byte(nil), s...), '\n'))
+			sc.run("relay-recv-cfg", len(s)%4, 64, append(append([]byte(nil), s...), '!', '\n'))
+		}
+	})
+	for i := 0; i < c.pick(1000, 40000); i++ {
+		l := rnd([]byte("#:ACTCFG=!x"), 16)
+		splitLine(l)
+		sc.run("relay-recv-act", c.rng.Intn(4), 4*len(l)+64, l, []byte("\n"))
+	}
+
+	// ---- the archive writer on entry headers no honest sender produces ----
+	awork, _ := os.MkdirTemp("", "c12_aw_")
+	defer os.RemoveAll(awork)
+	awN := 0
+	awRun := func(pieces ...[]byte) {
+		awN++
+		dest := filepath.Join(awork, fmt.Sprint(awN), "1", "2", "3", "4", "5", "6", "7", "8", "dest")
+		os.MkdirAll(dest, 0755)
+		sc.run("archive-writer", 0, 1<<30, append([][]byte{[]byte(dest)}, pieces...)...)
+		os.RemoveAll(filepath.Join(awork, fmt.Sprint(awN)))
+	}
+	hdrOf := func(js string) []byte { return []byte(c12B64z([]byte(js)) + "\n") }
+	sizes := []string{"-1", "0", "1", "5", "4611686018427387904"}
+	names := []string{`["root","f"]`, `["root","sub","g"]`, `["root"]`, `[]`, `["root",""]`, `["root","..","up"]`, `["other","f"]`, `["root","f","under-a-file"]`}
+	payload := []byte("0123456789abcdef\nXYZ")
+	for _, isDir := range []string{"true", "false"} {
+		for _, sz := range sizes {
+			for ni, nm := range names {
+				if !c.thorough() && ni > 2 && sz != "5" {
+					continue
+				}
+				h := hdrOf(fmt.Sprintf(`{"path_id":0,"path_name":%s,"is_dir":%s,"size":%s}`, nm, isDir, sz))
+				awRun(h, payload)                                    // the data in a Write of its own
+				awRun(append(append([]byte(nil), h...), payload...)) // header and data in one Write
+				awRun(h[:len(h)/2], h[len(h)/2:], payload[:1], payload[1:])
+				h2 := hdrOf(`{"path_id":0,"path_name":["root","f"],"is_dir":false,"size":3}`)
+				awRun(h2, []byte("abc"), h, payload, h2, []byte("abc")) // between two ordinary entries
+			}
+		}
+	}
+	for _, js := range []string{`{}`, `[]`, `null`, `{"path_name":["root","f"]}`, `{"path_id":77,"path_name":["root","f"],"size":3}`, `{"path_id":-1,"path_name":["root","f"],"size":3}`,
+		`{"path_id":0,"path_name":["root","f"],"is_dir":"yes","size":3}`, `{"path_id":0,"path_name":["root","f"],"size":"3"}`, `{"path_id":0,"path_name":"f","size":3}`,
+		`{"path_id":0,"path_name":["root","f"],"size":3,"perm":-1}`, `{"path_id":0,"path_name":["root","f"],"size":3,"perm":4294967296}`, `{"path_id":0,"path_name":["root","f"],"archive":true,"is_dir":true,"size":3}`} {
+		awRun(hdrOf(js), payload)
+		awRun(hdrOf(js), payload, hdrOf(js), payload)
+	}
+	awRun([]byte("\n"), payload)
+	awRun([]byte("!!!not base64\n"), payload)
+	awRun(payload)
+
+	// ---- the progress display under an adversarial clock (speed and ETA divide by elapsed time) ----
+	func() {
+		now := time.Unix(1700000000, 0)
+		restore := trzsz.VerifSetTimeNow(func() time.Time { return now })
+		defer restore()
+		deltas := []time.Duration{0, 1, time.Millisecond, 199 * time.Millisecond, 200 * time.Millisecond, 201 * time.Millisecond, time.Second, -time.Second, -time.Hour,
+			time.Hour, 1 << 62}
+		for _, size := range []int64{0, 1, 1000, 1 << 40} {
+			for _, d1 := range deltas {
+				for _, d2 := range deltas {
+					sc.calls["progress-clock"]++
+					func() {
+						defer func() {
+							if r := recover(); r != nil {
+								c.violate(fmt.Sprintf("scanner-panic:progress-clock:%d:%d:%d", size, d1, d2), fmt.Sprintf("the progress display panicked under a scripted clock: %v", r),
+									fmt.Sprintf("onNum(1) onName onSize(%d); clock +%v; onStep(%d); clock +%v; onStep(%d); onDone :: %v", size, d1, size/2, d2, size, r))
+							}
+						}()
+						p := trzsz.VerifNewProgress(100, 0, "")
+						p.OnNum(1)
+						p.OnName("a.bin")
+						p.OnSize(size)
+						p.OnStep(0)
+						now = now.Add(d1)
+						p.OnStep(size / 2)
+						now = now.Add(d2)
+						p.OnStep(size)
+						now = now.Add(d1)
+						p.OnDone()
+						if out := p.TakeOutput(); len(out) > 1<<16 {
+							c.violate(fmt.Sprintf("scanner-growth:progress-clock:%d:%d:%d", size, d1, d2), "the progress display wrote more than 64 KB for three steps", fmt.Sprint(len(out)))
+						}
+					}()
+				}
+			}
+		}
+	}()
 
 	total := 0
 	for fn, n := range sc.calls {
